@@ -96,3 +96,48 @@ Theorem C13_source_qv_is_empty : forall q, qv_position q < 2 ^ 64 ->
   g_qv_is_empty (qv_position q) = Val (qv_is_empty q).
 Proof. exact g_qv_is_empty_ok. Qed.
 Print Assumptions C13_source_qv_is_empty.
+
+(* ---- the BUILDER and the collecting constructor REGENERATED from src/qvector/mod.rs on every run (T5, Gen/FnsQvb.v:
+   QVectorBuilder::{with_capacity, push, build}, Extend::extend, FromIterator for QVectorBuilder and for QVector) together
+   with the regenerated accessors (Gen/FnsQv2.v: len, is_empty, get, get_unchecked): equal to the hand model (faults
+   included) wherever the 64-bit position counter does not overflow, and END TO END: collecting any sequence of fewer than
+   2^63 values of any width through the regenerated constructor and reading it back through the regenerated accessors is the
+   list specification (v mod 4 at each position, None beyond the end). *)
+From QwtModel Require Import Loops FnsQv2 FnsQvb FnsQv2Ok FnsQvbOk.
+Theorem C13_source_with_capacity : forall n,
+  g_qvb_with_capacity n = if 2 * n + 512 <? 2 ^ 64 then Val ([], 0) else Fault Overflow.
+Proof. exact g_qvb_with_capacity_ok. Qed.
+Print Assumptions C13_source_with_capacity.
+Theorem C13_source_push : forall b sym, qv_lines_ok b -> sym < 256 -> qv_position b + 2 < 2 ^ 64 ->
+  g_qvb_push (pack_qdata (qv_data b)) (qv_position b) sym =
+  let! b' := qvb_push b sym in Val (pack_qdata (qv_data b'), qv_position b').
+Proof. exact g_qvb_push_ok. Qed.
+Print Assumptions C13_source_push.
+Theorem C13_source_push_overflow : forall b sym b', qv_lines_ok b -> sym < 256 -> 2 ^ 64 <= qv_position b + 2 ->
+  qvb_push b sym = Val b' ->
+  g_qvb_push (pack_qdata (qv_data b)) (qv_position b) sym = Fault Overflow.
+Proof. exact g_qvb_push_overflow. Qed.
+Print Assumptions C13_source_push_overflow.
+Theorem C13_source_extend : forall wT b vs, qv_lines_ok b -> qv_position b + 2 * len vs < 2 ^ 64 ->
+  g_qvb_extend wT (pack_qdata (qv_data b)) (qv_position b) vs =
+  let! q := qvb_push_all b (map (fun v => v mod 256) vs) in Val (pack_qdata (qv_data q), qv_position q).
+Proof. exact g_qvb_extend_ok. Qed.
+Print Assumptions C13_source_extend.
+Theorem C13_source_builder_from_iter : forall wT vs, len vs < 2 ^ 63 ->
+  g_qvb_from_iter wT vs =
+  let! q := qvb_push_all qvb_new (map (fun v => v mod 256) vs) in Val (pack_qdata (qv_data q), qv_position q).
+Proof. exact g_qvb_from_iter_ok. Qed.
+Print Assumptions C13_source_builder_from_iter.
+Theorem C13_source_from_iter : forall wT vs, len vs < 2 ^ 63 ->
+  g_qv_from_iter wT vs =
+  let! q := qv_from_iter (map Z.of_N vs) in Val (pack_qdata (qv_data (qvb_build q)), qv_position (qvb_build q)).
+Proof. exact g_qv_from_iter_ok. Qed.
+Print Assumptions C13_source_from_iter.
+Theorem C13_source_collect : forall wT vs, len vs < 2 ^ 63 ->
+  exists data pos, g_qv_from_iter wT vs = Val (data, pos) /\
+    g_qv_len pos = Val (len vs) /\
+    g_qv_is_empty pos = Val (len vs =? 0) /\
+    (forall i, g_qv_get data pos i = Val (nthN (map (fun v => v mod 4) vs) i)) /\
+    (forall i x, nthN vs i = Some x -> g_qv_get_unchecked data pos i = Val (x mod 4)).
+Proof. exact g_qv_from_iter_e2e. Qed.
+Print Assumptions C13_source_collect.
